@@ -18,4 +18,5 @@ NextR == \/ \E v \in AddIds : Add(v)
 SpecR == Init /\ [][NextR]_vars
 \* the same with slices (observer transitions, self-loops)
 NextR2 == NextR \/ \E v \in Ids, p \in Preds : Slice(v, p)
+NextR3 == NextR \/ \E v \in Ids : Inspect(v)
 =============================================================================
